@@ -1,4 +1,6 @@
 pub mod c01;
+pub mod c03;
+pub mod c04;
 pub mod c05;
 pub mod c06;
 pub mod c07;
@@ -12,6 +14,8 @@ use crate::runner::Property;
 pub fn by_id(id: &str) -> Option<Property> {
     Some(match id {
         "C01" => c01::property(),
+        "C03" => c03::property(),
+        "C04" => c04::property(),
         "C05" => c05::property(),
         "C06" => c06::property(),
         "C07" => c07::property(),
@@ -24,4 +28,4 @@ pub fn by_id(id: &str) -> Option<Property> {
         _ => return None,
     })
 }
-pub const ALL: &[&str] = &["C01", "C05", "C06", "C07", "C08", "C09", "C10", "C11", "C16", "C17"];
+pub const ALL: &[&str] = &["C01", "C03", "C04", "C05", "C06", "C07", "C08", "C09", "C10", "C11", "C16", "C17"];
